@@ -708,8 +708,100 @@ func PipelineShape(prog *load.Program, fn *ssa.Function, stages []string) Result
 			return res
 		}
 	}
+	// an iteration that ran the first stage runs the last one before the next iteration
+	// starts (the only other way on is an error return): nothing read is left unwritten
+	first, last := calls[0].Block(), calls[len(calls)-1].Block()
+	var hdr *ssa.BasicBlock
+	for d := first; d != nil; d = d.Idom() {
+		back := false
+		for _, p := range d.Preds {
+			if d.Dominates(p) {
+				back = true
+			}
+		}
+		if back {
+			hdr = d
+			break
+		}
+	}
+	if hdr != nil {
+		for _, p := range hdr.Preds {
+			if hdr.Dominates(p) && first.Dominates(p) && !last.Dominates(p) {
+				res.Detail = "an iteration can read a file and go on to the next one without reaching " + stages[len(stages)-1]
+				return res
+			}
+		}
+	}
 	res.OK = true
-	res.Detail = strings.Join(shortNames(stages), " -> ") + " on one file, each stage fed by the previous one"
+	res.Detail = strings.Join(shortNames(stages), " -> ") + " on one file, each stage fed by the previous one, the last one reached whenever the first one ran"
+	return res
+}
+
+// AllFilesOf: the list fn iterates over is the first result of
+// root.ReadDirRecursiveFiltered(nil, FilterOutDirectories()) on the package variable `global`:
+// every regular file below it is a candidate (no name filter).
+func AllFilesOf(prog *load.Program, fn *ssa.Function, global string) Result {
+	res := Result{Name: fnKey(fn) + "/processes-every-file-of-" + global, Func: fnKey(fn), Pos: prog.Pos(fn.Pos())}
+	var list *ssa.Call
+	for _, b := range fn.Blocks {
+		for _, in := range b.Instrs {
+			if c, ok := in.(*ssa.Call); ok && strings.HasSuffix(calleeName(&c.Call), "Path).ReadDirRecursiveFiltered") {
+				if list != nil {
+					res.Detail = "more than one directory listing"
+					return res
+				}
+				list = c
+			}
+			if c, ok := in.(*ssa.Call); ok {
+				n := calleeName(&c.Call)
+				if strings.Contains(n, "pkg/paths.Filter") && !strings.HasSuffix(n, "FilterOutDirectories") {
+					res.Detail = "the listing is filtered by " + n[strings.LastIndex(n, ".")+1:]
+					return res
+				}
+			}
+		}
+	}
+	if list == nil {
+		res.Detail = "no ReadDirRecursiveFiltered call"
+		return res
+	}
+	ld, ok := list.Call.Args[0].(*ssa.UnOp)
+	if !ok {
+		res.Detail = "the listed directory is not a package variable"
+		return res
+	}
+	if g, ok := ld.X.(*ssa.Global); !ok || g.Name() != global {
+		res.Detail = "the listed directory is not " + global
+		return res
+	}
+	if c, ok := list.Call.Args[1].(*ssa.Const); !ok || c.Value != nil {
+		res.Detail = "the recursion filter is not nil"
+		return res
+	}
+	// the range loop walks the first result
+	walked := false
+	for _, r := range *list.Referrers() {
+		if ex, ok := r.(*ssa.Extract); ok && ex.Index == 0 {
+			for _, r2 := range *ex.Referrers() {
+				if ia, ok := r2.(*ssa.IndexAddr); ok {
+					if bo, ok := ia.Index.(*ssa.BinOp); ok && bo.Op == token.ADD {
+						if rp, ok := bo.X.(*ssa.Phi); ok && rp.Comment == "rangeindex" {
+							walked = true
+						}
+					}
+					if cp, ok := ia.Index.(*ssa.Phi); ok && cp.Comment != "" {
+						walked = true
+					}
+				}
+			}
+		}
+	}
+	if !walked {
+		res.Detail = "the listing is not the list the loop walks"
+		return res
+	}
+	res.OK = true
+	res.Detail = global + ".ReadDirRecursiveFiltered(nil, FilterOutDirectories()) is walked element by element"
 	return res
 }
 
@@ -782,5 +874,100 @@ func ConsumedOnce(prog *load.Program, fn *ssa.Function, consumers []string) Resu
 	}
 	res.OK = true
 	res.Detail = fmt.Sprintf("%d consumer call(s), pairwise on different paths", len(sites))
+	return res
+}
+
+// PrintsProducers: every value fn prints with fmt.Print* is, up to constant suffixes, the
+// direct result of one of the allowed producers: "what is shown" is the producer's text,
+// not a later rewriting of it. An entry "A<B" means: a call of A whose first argument (or
+// receiver) is the direct result of a call of B; "A" alone means any call of A.
+func PrintsProducers(prog *load.Program, fn *ssa.Function, allowed []string) Result {
+	res := Result{Name: fnKey(fn) + "/prints-only-what-the-producers-return", Func: fnKey(fn), Pos: prog.Pos(fn.Pos())}
+	strip := func(v ssa.Value) ssa.Value {
+		for {
+			switch x := v.(type) {
+			case *ssa.BinOp:
+				if x.Op == token.ADD {
+					if _, ok := x.Y.(*ssa.Const); ok {
+						v = x.X
+						continue
+					}
+				}
+				return v
+			case *ssa.MakeInterface:
+				v = x.X
+			case *ssa.ChangeType:
+				v = x.X
+			default:
+				return v
+			}
+		}
+	}
+	okValue := func(v ssa.Value) bool {
+		c, ok := strip(v).(*ssa.Call)
+		if !ok {
+			return false
+		}
+		n := calleeName(&c.Call)
+		for _, a := range allowed {
+			outer, inner, has := strings.Cut(a, "<")
+			if !strings.HasSuffix(n, outer) {
+				continue
+			}
+			if !has {
+				return true
+			}
+			if len(c.Call.Args) == 0 {
+				continue
+			}
+			if ic, ok := strip(c.Call.Args[0]).(*ssa.Call); ok && strings.HasSuffix(calleeName(&ic.Call), inner) {
+				return true
+			}
+		}
+		return false
+	}
+	n := 0
+	for _, b := range fn.Blocks {
+		for _, in := range b.Instrs {
+			c, ok := in.(*ssa.Call)
+			if !ok {
+				continue
+			}
+			name := calleeName(&c.Call)
+			if name != "fmt.Print" && name != "fmt.Println" && name != "fmt.Printf" {
+				continue
+			}
+			n++
+			// the variadic pack: stores of MakeInterface into the elements of a local array
+			sl, ok := c.Call.Args[len(c.Call.Args)-1].(*ssa.Slice)
+			if !ok {
+				res.Detail = "a print call without a literal argument list at " + prog.Pos(c.Pos())
+				return res
+			}
+			al, ok := sl.X.(*ssa.Alloc)
+			if !ok {
+				res.Detail = "a print call without a literal argument list at " + prog.Pos(c.Pos())
+				return res
+			}
+			for _, r := range *al.Referrers() {
+				ia, ok := r.(*ssa.IndexAddr)
+				if !ok {
+					continue
+				}
+				for _, r2 := range *ia.Referrers() {
+					if st, ok := r2.(*ssa.Store); ok && !okValue(st.Val) {
+						res.Detail = "the value printed at " + prog.Pos(c.Pos()) + " is not the direct result of an allowed producer"
+						return res
+					}
+				}
+			}
+		}
+	}
+	if n == 0 {
+		res.Detail = "no print call"
+		return res
+	}
+	res.OK = true
+	res.Detail = fmt.Sprintf("%d print call(s), each printing the direct result of %s", n, strings.Join(allowed, " / "))
 	return res
 }
